@@ -29,9 +29,11 @@ Theorem C20_trace_equal : forall ev s cfg x0,
   exists st, ext_run ev s NoFault cfg x0 sch = Some (r, st) /\ p_trace (s_par st) = tr.
 Proof. exact trace_equal. Qed.
 
-(* (b) a child that is killed, or exits with a non-zero code, after ANY number k of exchanged messages:
-   the run either was already complete (same result, same trace) or ends with the "terminated
-   abnormally" error after a prefix of the in-process evaluations *)
+(* (b) a child that dies by ANY signal -- when it is about to write its k-th message, right after it read
+   the answer to its k-th message, or while it is blocked waiting for that answer -- or exits with a
+   non-zero code, for ANY k: the run either was already complete (same result, same trace) or ends with
+   the "terminated abnormally" error / the error of writing into a FIFO nobody reads, after a prefix of
+   the in-process evaluations *)
 Theorem C20_fault_outcome : forall ev s cfg x0 flt,
   (forall hist, wf_action (s cfg x0 hist) = true) ->
   (forall i v rf rg, wf_evres (fst (ev i v rf rg)) = true) ->
@@ -70,14 +72,14 @@ Proof.
   intros ev s cfg x0 flt SW EW A fuel r tr H sch st N E.
   destruct (fault_outcome ev s cfg x0 flt SW EW A fuel r tr H sch N) as (r' & st' & E' & D).
   rewrite E in E'. inversion E'; subst r' st'.
-  destruct D as [[<- T] | [(c & _ & K) _]]; [split; [reflexivity | exact T] | discriminate K].
+  destruct D as [[<- T] | [[(c & _ & K) | K] _]]; [split; [reflexivity | exact T] | discriminate K | discriminate K].
 Qed.
 
 (* the plan step maps a raised error to an error or the abort's own code, never to "finished" *)
 Theorem C20_raise_not_finished : forall fin e,
   (forall c, e = ExAbort c -> c <> fin) -> step_outcome fin (Raise e) <> Exit fin.
 Proof.
-  intros fin e H. destruct e as [c | cls | m | rc]; cbn; try discriminate.
+  intros fin e H. destruct e as [c | cls | m | rc |]; cbn; try discriminate.
   intros K. inversion K. exact (H c eq_refl H1).
 Qed.
 
@@ -107,10 +109,12 @@ Theorem C20_schedule_independent : forall ev s cfg x0 flt sch1 sch2 st res1 res2
   run ev s flt cfg x0 sch1 st = Some res1 -> run ev s flt cfg x0 sch2 st = Some res2 -> res1 = res2.
 Proof. exact schedule_independent. Qed.
 
-(* non-vacuity: a two-evaluation script; without fault the run returns after both evaluations, a child
-   killed after 3 messages gives the abnormal-termination error after one, a child that reports an error
-   gives the optimizer error, an aborting evaluator gives its code; pipes that are ready only now and then
-   change nothing *)
+(* non-vacuity: a two-evaluation script; without fault the run returns after both evaluations; a child
+   killed (SIGKILL) or terminated (SIGTERM) when about to write its 4th message gives the abnormal-termination
+   error after one evaluation; a child that dies right after the last answer -- the run was complete -- still
+   is an error; a child killed while it waits for the answer to its 3rd message gives the pipe error after
+   that callback was made; a child that reports an error, also one with an EMPTY message, gives the optimizer
+   error; an aborting evaluator gives its code; pipes that are ready only now and then change nothing *)
 Example C20_example :
   let v1 := T1 [1%Z; 2%Z] in let v2 := T1 [3%Z; 4%Z] in
   let sc := [Ask v1 true false; Ask v2 true true] in
@@ -122,10 +126,17 @@ Example C20_example :
   forallb wf_action sc = true /\
   out (ext_run ev (script_strategy sc) NoFault JNull [] (sync 5)) = Some (Return, 2, CExited 0) /\
   out (ext_run ev (script_strategy sc) NoFault JNull [] lazy) = Some (Return, 2, CExited 0) /\
-  out (ext_run ev (script_strategy sc) (DieAfter 3) JNull [] (sync 5)) = Some (Raise (ExDeath (-9)), 1, CKilled sigkill) /\
+  out (ext_run ev (script_strategy sc) (DieAfter 3 sigkill) JNull [] (sync 5)) = Some (Raise (ExDeath (-9)), 1, CKilled sigkill) /\
+  out (ext_run ev (script_strategy sc) (DieAfter 3 sigterm) JNull [] lazy) = Some (Raise (ExDeath (-15)), 1, CKilled sigterm) /\
+  out (ext_run ev (script_strategy sc) (DieOnAnswer 4 sigterm) JNull [] (sync 5)) = Some (Raise (ExDeath (-15)), 2, CKilled sigterm) /\
+  out (ext_run ev (script_strategy sc) (DieOnAnswer 2 sigint) JNull [] (sync 5)) = Some (Raise (ExDeath (-2)), 0, CKilled sigint) /\
+  out (ext_run ev (script_strategy sc) (DieWaiting 3 sigterm) JNull [] (sync 5)) = Some (Raise ExPipe, 1, CKilled sigterm) /\
+  out (ext_run ev (script_strategy sc) (DieWaiting 1 sigkill) JNull [] lazy) = Some (Raise ExPipe, 0, CKilled sigkill) /\
   out (ext_run ev (script_strategy sc) (ExitAfter 0 3) JNull [] (sync 5)) = Some (Raise (ExDeath 3), 0, CExited 3) /\
   out (ext_run ev (with_raise 1 "boom" (script_strategy sc)) NoFault JNull [] (sync 5))
     = Some (Raise (ExOptimizer "boom"), 1, CKilled sigterm) /\
+  out (ext_run ev (with_raise 1 "" (script_strategy sc)) NoFault JNull [] (sync 5))
+    = Some (Raise (ExOptimizer ""), 1, CKilled sigterm) /\
   out (ext_run evab (script_strategy sc) NoFault JNull [] (sync 5)) = Some (Raise (ExAbort 4), 2, CKilled sigterm) /\
   option_map fst (inproc 5 ev (script_strategy sc JNull []) [] []) = Some Return.
 Proof. vm_compute. repeat split; reflexivity. Qed.
